@@ -41,14 +41,15 @@ def emit(cfg, ir):
     import cdd.pydantic.emit
 
     f = cfg["fmt"]
+    edd = bool(cfg.get("edd"))
     if f == "class":
-        return cdd.class_.emit.class_(copy.deepcopy(ir), class_name="Cfg", docstring_format=cfg["style"])
+        return cdd.class_.emit.class_(copy.deepcopy(ir), class_name="Cfg", docstring_format=cfg["style"], emit_default_doc=edd)
     if f == "pydantic":
-        return cdd.pydantic.emit.pydantic(copy.deepcopy(ir), class_name="Cfg", docstring_format=cfg["style"])
+        return cdd.pydantic.emit.pydantic(copy.deepcopy(ir), class_name="Cfg", docstring_format=cfg["style"], emit_default_doc=edd)
     if f == "function":
         return cdd.function.emit.function(copy.deepcopy(ir), function_name="fn", function_type="static",
-                                          docstring_format=cfg["style"], emit_as_kwonlyargs=cfg["kwonly"])
-    return cdd.argparse_function.emit.argparse_function(copy.deepcopy(ir), docstring_format=cfg["style"])
+                                          docstring_format=cfg["style"], emit_as_kwonlyargs=cfg["kwonly"], emit_default_doc=edd)
+    return cdd.argparse_function.emit.argparse_function(copy.deepcopy(ir), docstring_format=cfg["style"], emit_default_doc=edd)
 
 
 class _FoldNeg(ast.NodeTransformer):
